@@ -10,7 +10,7 @@ import z3
 
 from sv.engine import ctx, pz
 from sv.engine.ob import Ob
-from sv.engine.xh import assume, check
+from sv.engine.xh import assume, check, choose, native
 from sv.ref import cats as refcats
 
 import kernpy as kp
@@ -59,6 +59,11 @@ def ob_a(a: int) -> bool:
 def ob_b(a: int, b: int) -> bool:
     assume(0 <= a < N)
     assume(0 <= b < N)
+    return _b_body(choose(a, N), choose(b, N))
+
+
+@native
+def _b_body(a, b):
     ca, cb = CATS[a], CATS[b]
     exp = cb.name in DOC.ancestors_or_self(ca.name)
     got = TC.is_child(child=ca, parent=cb)
@@ -123,14 +128,19 @@ def _members(i, j):
 def ob_d(i: int, j: int, k: int, side: bool) -> bool:
     """valid()/match() with include (side=True) or exclude (side=False) given in every argument
     shape; i, j: member indices (-1 absent); k: shape selector."""
-    nq = ctx.pick(8, N)       # quick: second slot restricted to the first 8 members (+absent)
+    nq = N
     assume(-1 <= i < N)
     assume(-1 <= j < nq)
     assume(0 <= k < 5)
+    assume(not (k == 3 and (i < 0) == (j < 0)))      # single: exactly one member
+    assume(not (k == 4 and (i >= 0 or j >= 0)))      # None: no member
+    return _d_body(choose(i + 1, N + 1) - 1, choose(j + 1, nq + 1) - 1, choose(k, 5), bool(side))
+
+
+@native
+def _d_body(i, j, k, side):
     kind = SHAPES[k]
     mem = _members(i, j)
-    assume(not (kind == 'single' and len(mem) != 1))
-    assume(not (kind == 'none' and len(mem) != 0))
     arg = shape(kind, mem)
     names = None if kind == 'none' else [c.name for c in mem]
     if side:
@@ -145,11 +155,17 @@ def ob_d(i: int, j: int, k: int, side: bool) -> bool:
 
 def ob_e(a: int, b: int, c: int, k: int) -> bool:
     """match(c, include=<a>, exclude=<b>) and valid() for single categories in every shape."""
-    nq = ctx.pick(4, N)
+    nq = ctx.pick(16, N)
     assume(0 <= a < N)
     assume(-1 <= b < N)
     assume(0 <= c < nq)
-    assume(0 <= k < ctx.pick(1, 4))
+    nk = ctx.pick(1, 4)
+    assume(0 <= k < nk)
+    return _e_body(choose(a, N), choose(b + 1, N + 1) - 1, choose(c, nq), choose(k, nk))
+
+
+@native
+def _e_body(a, b, c, k):
     kind = SHAPES[k]
     inc = shape(kind, [CATS[a]])
     exc = None if b < 0 else shape(kind, [CATS[b]])
@@ -172,9 +188,14 @@ def ob_f(i: int, w: int, k: int, side: bool) -> bool:
     assume(0 <= i < N)
     assume(0 <= w < len(BAD))
     assume(0 <= k < 4)
+    assume(not (k == 3 and w == 2))   # a bare None means "default"
+    return _f_body(choose(i, N), choose(w, len(BAD)), choose(k, 4), bool(side))
+
+
+@native
+def _f_body(i, w, k, side):
     kind = SHAPES[k]
     bad = BAD[w]
-    assume(not (kind == 'single' and bad is None))   # a bare None means "default"
     mem = [bad] if kind == 'single' else [CATS[i], bad]
     arg = shape(kind, mem)
     for call in ('valid', 'match'):
@@ -327,20 +348,20 @@ OBLIGATIONS = [
        shard_of=lambda i, j, k, side: (i + 1) + 40 * k, shards={'quick': 12, 'thorough': 16},
        budget_s={'quick': 150, 'thorough': 900},
        witnesses=[{'i': 5, 'j': -1, 'k': 3, 'side': True}, {'i': -1, 'j': -1, 'k': 4, 'side': False}, {'i': 3, 'j': 7, 'k': 2, 'side': False}],
-       untrace=UNTRACE, min_confirmed=500, symbolic='two member indices (-1 = absent), shape selector, include/exclude side',
-       bounds={'quick': 'first member over all 37 (+absent), second over the first 8 (+absent); list/tuple/set/single/None',
+       min_confirmed=500, symbolic='two member indices (-1 = absent), shape selector, include/exclude side',
+       bounds={'quick': 'both members over all 37 (+absent); list/tuple/set/single/None',
                'thorough': 'both members over all 37 (+absent)'}),
     Ob(id='C11.e', fn=ob_e, title='match()/valid() for single include x single exclude x target, every shape',
        shard_of=lambda a, b, c, k: a + N * (b + 1), shards={'quick': 16, 'thorough': 16},
        budget_s={'quick': 170, 'thorough': 1500},
        witnesses=[{'a': 5, 'b': 6, 'c': 1, 'k': 0}, {'a': 3, 'b': -1, 'c': 0, 'k': 0}], min_confirmed=1000,
-       untrace=UNTRACE, symbolic='include index, exclude index (-1 = None), target index, shape',
-       bounds={'quick': '37 x 38 (include, exclude) pairs x 4 targets spread over the members, list shape only (shapes are C11.d)',
+       symbolic='include index, exclude index (-1 = None), target index, shape',
+       bounds={'quick': '37 x 38 (include, exclude) pairs x 16 targets spread over the members, list shape only (shapes are C11.d)',
                'thorough': '37 x 38 x 37 targets x 4 shapes'},
        ),
     Ob(id='C11.f', fn=ob_f, title='non-category members are rejected with ValueError',
        shard_of=lambda i, w, k, side: i, shards={'quick': 4, 'thorough': 4}, budget_s={'quick': 100, 'thorough': 300},
-       witnesses=[{'i': 0, 'w': 0, 'k': 0, 'side': True}], min_confirmed=100, untrace=UNTRACE,
+       witnesses=[{'i': 0, 'w': 0, 'k': 0, 'side': True}], min_confirmed=100,
        symbolic='member index, bad-member selector, shape, side',
        bounds={'quick': '37 members x 4 foreign values x 4 shapes x include/exclude', 'thorough': 'same'}),
 ]
